@@ -190,19 +190,44 @@ def r3_iers_only(chk, F):
     tts = F.find1(self_ty="Epoch", name="to_time_scale", trait="")
     ls = F.find1(self_ty="Epoch", name="leap_seconds", trait="")
     lsw = [f for f in F.find(self_ty="Epoch", name="leap_seconds_with", trait="") if "LatestLeapSeconds" in f["key"]]
+    # decided on the interpreted paths of the UTC conversions (helpers inlined): every look-up reached is leap_seconds(.., true),
+    # and no other leap-second look-up function is reached
+    eng, D = ctx(F)
+    A = EpochAlg(F, eng, D)
+    # (the table scan itself - every instance of leap_seconds_with - reached without going through leap_seconds is "another look-up")
+    others = [f for f in F.fns if f and f.get("local") and "blocks" in f and (f.get("name") or "") == "leap_seconds_with"]
     n = 0
-    for fn in [tts]:
-        for bi, t in cfg.calls(fn):
-            if t["f"].get("fn_id") == ls["id"]:
+    other = []
+    for src, dst in (("UTC", "TAI"), ("TAI", "UTC")):
+        def setup(st, args, src=src, dst=dst):
+            ep = eng.deref(st, args[0])
+            fix_enum(eng, st, ep.fs[1], src)
+            fix_enum(eng, st, args[1], dst)
+            return [st]
+        A.install(duration_algebra=True, opaque_conv=False)
+        eng.hooks_by_id[ls["id"]] = rec_hook(D, "leap_seconds")
+        for f in others:
+            eng.hooks_by_id[f["id"]] = rec_hook(D, "other-lookup:" + f["path"])
+        finals, args = D.run(tts, extra=setup, interior=True)
+        A.uninstall()
+        eng.hooks_by_id = {}
+        seen = set()
+        for st in finals:
+            for a, r in recs(st, "leap_seconds"):
+                k = a[1] if len(a) > 1 else None
+                ok = isinstance(k, Bool) and k.c == TRUE
+                key = repr(k)
+                if key in seen and ok:
+                    continue
+                seen.add(key)
                 n += 1
-                k = cfg.resolve(fn, t["args"][1])
-                ok = k[0] == "const" and k[1].get("v") is True
-                chk.ob(rule, "Epoch::to_time_scale", "leap_seconds(iers_only=true)#%d" % n, ok, "constant argument",
+                chk.ob(rule, "Epoch::to_time_scale[%s->%s]" % (src, dst), "leap_seconds(iers_only=true)#%d" % n, ok, "argument value on the interpreted path",
                        detail=None if ok else repr(k)[:200])
-    chk.floor(rule, "leap_seconds calls in to_time_scale", n, 2)
-    # no other leap-second look-up reachable from to_time_scale
-    other = [cfg.callee_name(t["f"]) for bi, t in cfg.calls(tts) if "leap_seconds" in cfg.callee_name(t["f"]) and t["f"].get("fn_id") != ls["id"]]
-    chk.ob(rule, "Epoch::to_time_scale", "no-other-leap-second-lookup", not other, "call sites", detail=other or None)
+            for tr in st.trace:
+                if isinstance(tr, tuple) and len(tr) == 4 and tr[0] == "rec" and str(tr[1]).startswith("other-lookup:"):
+                    other.append(tr[1].split(":", 1)[1])
+    chk.floor(rule, "leap_seconds look-ups on the UTC conversion paths of to_time_scale", n, 2)
+    chk.ob(rule, "Epoch::to_time_scale", "no-other-leap-second-lookup", not other, "calls reached on the interpreted paths", detail=sorted(set(other)) or None)
     # leap_seconds(iers_only) = leap_seconds_with(iers_only, LatestLeapSeconds::default())
     ok = False
     if len(lsw) == 1:
